@@ -212,6 +212,18 @@ def run(run: Run):
         run.bump("concurrent calls", r.get("calls", 0))
         if r["mismatches"]:
             run.violation(f"concurrent calls returned results different from the single-threaded baseline: {r['mismatches'][:3]}", {"kind": "gens", "spec": {"op": "threads"}, "observed": r["mismatches"][:10]})
+    # (c1) whole-batch calls in flight on several threads: a verify_batch result (verdict AND error) is the one the call gives alone, also for batches whose
+    # outcome depends on where they are cut into chunks (longer than half a chunk, an algebraically wrong proof first and a statement of another extension
+    # degree last; valid proofs of two degrees)
+    brs = [{"op": "batch_race", "threads": t_, "reps": 2 if quick else 6, "n": n_, "split": sp_} for (t_, n_, sp_) in ([(2, 150, 128), (4, 150, 64), (8, 100, 32)] if quick else
+                                                                                                                    [(2, 150, 128), (4, 150, 64), (8, 100, 32), (3, 260, 86), (16, 300, 16), (2, 257, 129)])]
+    for bs_, r in zip(brs, run_harness(["gens"], brs, jobs=len(brs))):
+        run.count(["batch-race", bs_["threads"], bs_["n"], bs_["split"]], {"check": "verify_batch on cut-sensitive batches, alone vs several threads at once", "threads": bs_["threads"], "batch": bs_["n"],
+                                                                          "alone": r.get("alone"), "calls": r.get("calls")})
+        run.bump("concurrent whole-batch calls", r.get("calls", 0))
+        if r.get("mismatches"):
+            run.violation(f"verify_batch on a batch of {bs_['n']} gives another result while {bs_['threads'] - 1} other thread(s) are verifying than alone: {r['mismatches'][:2]}",
+                          {"kind": "gens", "spec": bs_, "observed": r["mismatches"][:10]})
     # (c2) the FIRST use of a fresh parameter object raced by all threads at once (tables or caches built lazily must not be observable), round after round
     shapes2 = [(8, 4, 1), (16, 2, 2), (4, 8, 1)] if quick else [(8, 4, 1), (16, 2, 2), (4, 8, 1), (32, 2, 1), (8, 16, 3), (64, 2, 1)]
     for (b, c, T), r in zip(shapes2, run_harness(["gens"], [{"op": "fresh_race", "threads": 12, "rounds": 12 if quick else 60, "bits": b, "cap": c, "T": T} for (b, c, T) in shapes2], jobs=len(shapes2))):
